@@ -2,6 +2,7 @@ package main
 
 import (
 	"fmt"
+	"os"
 	"regexp"
 	"go/ast"
 	"go/token"
@@ -267,34 +268,69 @@ var pcNameRe = regexp.MustCompile(`pc![0-9]+`)
 // relevantPCs: the path conditions the obligation's own path condition is built from (transitively).
 // Facts guarded by any other path condition belong to paths that cannot reach this obligation; leaving
 // them out of its query is sound (fewer hypotheses) and keeps contexts small under path splitting.
-func (vc *VC) relevantPCs(goal string) map[string]bool {
-	if !strings.HasPrefix(goal, "(=> pc!") {
+func (vc *VC) relevantPCs(goal string, scriptLen int) map[string]bool {
+	if !strings.HasPrefix(goal, "(=> pc!") || os.Getenv("KVC_NOSLICE") != "" {
 		return nil
 	}
-	root := pcNameRe.FindString(goal)
-	seen := map[string]bool{}
+	seen := map[string]bool{} // every defined / declared name reached (path conditions among them)
 	var walk func(n string)
 	walk = func(n string) {
 		if seen[n] {
 			return
 		}
 		seen[n] = true
-		for _, d := range pcNameRe.FindAllString(vc.defs[n], -1) {
-			walk(d)
+		if body, ok := vc.defs[n]; ok {
+			for _, d := range identRe.FindAllString(body, -1) {
+				walk(d)
+			}
 		}
 	}
-	walk(root)
+	// every name the goal mentions (its guard, the auxiliary path conditions created while its own
+	// specification expressions were evaluated, and everything their definitions mention) ...
+	for _, n := range identRe.FindAllString(goal, -1) {
+		walk(n)
+	}
+	// ... and, to a fixpoint, the names mentioned inside the hypotheses that are kept
+	for {
+		before := len(seen)
+		for _, l := range vc.script[:scriptLen] {
+			if !strings.HasPrefix(l, "(assert (=> pc!") {
+				continue
+			}
+			names := identRe.FindAllString(l, -1)
+			keep := seen[pcNameRe.FindString(l)]
+			if !keep {
+				// a hypothesis about a constant the goal depends on (e.g. the result of a call made on the untaken
+				// side of a merge: the merged value mentions the constant but not that side's path condition)
+				for _, n := range names[1:] {
+					if _, isDef := vc.defs[n]; !isDef && seen[n] && !strings.HasPrefix(n, "pc!") {
+						keep = true
+						break
+					}
+				}
+			}
+			if !keep {
+				continue
+			}
+			for _, n := range names {
+				walk(n)
+			}
+		}
+		if len(seen) == before {
+			break
+		}
+	}
 	return seen
 }
 
 func (vc *VC) query(o *Obligation) string {
 	var b strings.Builder
 	b.WriteString(prelude)
-	rel := vc.relevantPCs(o.Goal.S)
+	rel := vc.relevantPCs(o.Goal.S, o.ScriptLen)
 	for _, l := range vc.script[:o.ScriptLen] {
 		if rel != nil && strings.HasPrefix(l, "(assert (=> pc!") {
 			if g := pcNameRe.FindString(l); !rel[g] {
-				continue
+				continue // its guard was never reached by the relevance closure
 			}
 		}
 		b.WriteString(l)
